@@ -336,6 +336,52 @@ def enumerate_loops_on_exits() -> Iterator[Any]:
         yield d
 
 
+def enumerate_large_loops() -> Iterator[Any]:
+    """scale: long jobs (about 40 event types) with a 12-event loop body — optionally with a nested 4-event loop, a
+    break, an XOR fork in the body — between two 14-event stretches; the product (nodes of the graph) x (events of the
+    loop's component) runs into the hundreds"""
+    import itertools
+    for nested, brk, fork in itertools.product((0, 1), repeat=3):
+        ng = NameGen()
+
+        def E() -> Any:
+            return ["ev", ng.fresh()]
+        pre = [E() for _ in range(14)]
+        body: list[Any] = [E() for _ in range(4)]
+        if nested:
+            body.append(["loop", ["seq", [E() for _ in range(4)]]])
+            body.append(E())
+        if fork:
+            body.append(["fork", "XOR", [["seq", [E(), E()]], ["seq", [E()]]]])
+            body.append(E())
+        if brk:
+            body.append(["fork", "XOR", [["seq", [E(), ["brk"]]], ["seq", [E()]]]])
+        while len(def_names(["seq", body])) < 12:
+            body.append(E())
+        post = [E() for _ in range(14)]
+        yield ["seq", pre + [["loop", ["seq", body]]] + post]
+
+
+def enumerate_wide_deep() -> Iterator[Any]:
+    """scale, inside F except for depth: forks of 5 and 6 branches of every operator, and alternating forks nested four
+    deep (F stops at depth 3; the corpus has such files)"""
+    for op in ("AND", "OR", "XOR"):
+        for width in (5, 6):
+            ng = NameGen()
+            a = ["ev", ng.fresh()]
+            brs = [["seq", [["ev", ng.fresh()]] + ([["ev", ng.fresh()]] if i == 0 else [])] for i in range(width)]
+            yield ["seq", [a, ["fork", op, brs], ["ev", ng.fresh()]]]
+    for ops in (("AND", "XOR", "AND", "XOR"), ("XOR", "AND", "OR", "XOR"), ("OR", "XOR", "AND", "OR")):
+        ng = NameGen()
+
+        def E() -> Any:
+            return ["ev", ng.fresh()]
+        cur: Any = ["fork", ops[3], [["seq", [E()]], ["seq", [E()]]]]
+        for op in reversed(ops[:3]):
+            cur = ["fork", op, [["seq", [E(), cur, E()]], ["seq", [E()]]]]
+        yield ["seq", [E(), cur, E()]]
+
+
 def enumerate_break_forks() -> Iterator[Any]:
     """inside F: a loop whose body is B; XOR{ X; break | (X2; break)? | C… | D… | (E)? }; (F)? — one or two break
     branches next to two or three branches that carry on (one or two events each), with or without an event after the
